@@ -1411,7 +1411,7 @@ package engine
 //@   requires vm != nil && merge != nil
 //@   nosafety
 //@   bind added, cerr = compile#1
-//@   assume-call preserves class map[procedureIndicator]procedure
+//@   assume-call preserves vm.procedures
 //@   at-call dynamic#2 requires[merges-the-stored-clauses-with-the-compiled-ones] a1 == added
 //@   ensures[a-failed-assert-changes-no-procedure] result != nil ==> forall q procedureIndicator :: has(vm.procedures, q) == old(has(vm.procedures, q))
 
